@@ -37,9 +37,15 @@ def _correspondence_once(ctx, rep=0):
     for e in E:
         for regime in ('fresh', 'normal'):
             t32 = tcorr.build(e, gen, torch.float32, regime)
+            # the twin is made from a model that has ALREADY been evaluated in float32 (per-instance memoised values must
+            # not survive the dtype conversion)
+            R.impl_call(t32, R.make_inputs(e, 2, gen, torch.float32, False), R.make_context(e, 2, gen, torch.float32), False)
             t64 = copy.deepcopy(t32).double()
             for inverse in (False, True):
                 x32 = R.make_inputs(e, 3, gen, torch.float32, inverse)
+                if e.kind == 'nonlin' and e.dom_fwd is None and not inverse and x32.numel() >= 6:
+                    # moderate but not small magnitudes
+                    fl = x32.view(-1); fl[0] = 9.0; fl[1] = 17.0; fl[2] = -17.0; fl[3] = 6.5
                 c32 = R.make_context(e, 3, gen, torch.float32)
                 x64 = x32.double(); c64 = c32.double() if c32 is not None else None
                 j32 = tcorr.make_job(e, t32, x32, c32, inverse, regime, tag='f32')
